@@ -22,7 +22,7 @@ ASSUMPTIONS = [
     "itself the spelling without a trailing separator is accepted as well",
     "the entry must be one that existed at some time during the session (the harness's byte-level record of names)",
 ]
-MINIMUMS = {"quick": {"paths_judged": 3000, "paths_with_special_bytes": 500}, "thorough": {"paths_judged": 200000}}
+MINIMUMS = {"quick": {"paths_judged": 3000, "paths_with_special_bytes": 500, "dual_watch_cases": 20}, "thorough": {"paths_judged": 200000}}
 WALL_CAP = {"quick": 170, "thorough": 3000}
 
 NAMES = ["a", "é", "☃", os.fsdecode(b"\xff\xfe.txt"), os.fsdecode(b"\xfd")]
@@ -50,6 +50,10 @@ def path_oracle(h, sess, seg_ops, evs, single):
             if rel is None:
                 h.v("C19", "path-not-under-root-as-given", f"{type(e).__name__}.{which} = {p!r} is not the scheduled root {sess.root_spelled!r} joined with a relative name")
                 continue
+            if h.cfg.get("pacing", True) is False:
+                # unpaced history: synthetic events are computed from the disk at emit time and renames race the reader's
+                # path book-keeping, so only the type and the root prefix are judged there
+                continue
             if rel != "" and rel not in ever:
                 h.v("C19", "path-names-no-real-entry", f"{type(e).__name__}.{which} = {p!r}: no entry {rel!r} ever existed under the root (bytes: {os.fsencode(rel)!r})")
 
@@ -64,7 +68,89 @@ def make_cfg(r, seed, observer):
     cfg["read_size"] = 300 if cfg["mode"] == "small" else None
     if r.random() < 0.4 and cfg["spelling"] in ("abs", "rel", "slash"):
         cfg["bytes"] = True
+    if observer == "inotify" and r.random() < 0.3:
+        # unpaced bursts (files created inside directories the reader has not reached yet): path soundness does not depend on pacing
+        cfg["pacing"] = False
+        cfg["bias"] = dict(BIAS, makedirs=6, create=6, mkdir=4)
     return cfg
+
+
+class _Col:
+    def __init__(self):
+        self.events = []
+
+    def dispatch(self, e):
+        self.events.append(e)
+
+
+def run_dual(b: Batch, r, observer):
+    """Two handlers scheduled on the SAME directory of one observer with different spellings / types of the path: each must
+    receive paths in its own spelling."""
+    import random
+    import time
+
+    from wdverif.fsrig import OpGen, Universe
+
+    u = Universe(random.Random(r.random()), names=NAMES)
+    cwd = os.getcwd()
+    try:
+        u.populate(3, 3)
+        root_abs = u.abs(u.root_name)
+        os.chdir(u.base)
+        spell = [root_abs, os.fsencode(root_abs), u.root_name, os.fsencode(u.root_name), root_abs + "/"]
+        a, c = r.sample(spell, 2)
+        if observer == "inotify":
+            from watchdog.observers.inotify import InotifyObserver
+
+            obs = InotifyObserver()
+        else:
+            from watchdog.observers.polling import PollingObserver
+
+            obs = PollingObserver(timeout=0.02)
+        cols = [_Col(), _Col()]
+        rec = r.random() < 0.8
+        obs.schedule(cols[0], a, recursive=rec)
+        obs.schedule(cols[1], c, recursive=rec)
+        obs.start()
+        gen = OpGen(u, random.Random(r.random()), bias=BIAS)
+        from wdverif.fsrig import Pacer, op_footprint
+
+        pacer = Pacer()
+        for _ in range(r.randint(4, 10)):
+            op = gen.next_op()
+            if op is None:
+                break
+            touches, names, hot = op_footprint(u, op)
+            if pacer.needs_drain(touches, names):
+                time.sleep(0.25 if observer == "inotify" else 0.15)
+                pacer.drained()
+            u.do(op)
+            pacer.mark(hot)
+        time.sleep(0.3 if observer == "inotify" else 0.2)
+        obs.stop()
+        obs.join(10)
+        b.case()
+        for col, given in zip(cols, (a, c)):
+            want_bytes = isinstance(given, bytes)
+            sep = b"/" if want_bytes else "/"
+            base = given.rstrip(sep)
+            for e in col.events:
+                for which, pth in (("src_path", e.src_path), ("dest_path", e.dest_path)):
+                    if not pth:
+                        continue
+                    b.count("paths_judged")
+                    b.count("dual_watch_paths_judged")
+                    if isinstance(pth, bytes) != want_bytes:
+                        b.violation("wrong-path-type", f"two watches on one directory ({a!r} and {c!r}): the handler scheduled with {given!r} received {type(e).__name__}.{which} = {pth!r}",
+                                    witness={"spellings": [repr(a), repr(c)], "observer": observer})
+                    elif not (pth == base or pth.startswith(base + sep)):
+                        b.violation("path-not-under-root-as-given", f"two watches on one directory ({a!r} and {c!r}): the handler scheduled with {given!r} received {which} = {pth!r}",
+                                    witness={"spellings": [repr(a), repr(c)], "observer": observer})
+        b.count("dual_watch_cases")
+        b.nontrivial(["dual", repr(a), repr(c), observer, r.random()])
+    finally:
+        os.chdir(cwd)
+        u.cleanup()
 
 
 def plan(tier, seed, jobs):
@@ -74,7 +160,11 @@ def plan(tier, seed, jobs):
             specs.append({"kind": "random", "n": 150, "seed": seed, "j": j, "budget_s": 50, "observer": "inotify"})
         for j in range(4):
             specs.append({"kind": "random", "n": 80, "seed": seed, "j": 100 + j, "budget_s": 50, "observer": "polling"})
+        for j in range(4):
+            specs.append({"kind": "dual", "n": 12, "seed": seed, "j": j, "budget_s": 50})
     else:
+        for j in range(jobs):
+            specs.append({"kind": "dual", "n": 300, "seed": seed, "j": j, "budget_s": 700})
         for j in range(jobs * 3):
             specs.append({"kind": "random", "n": 4000, "seed": seed, "j": j, "budget_s": 700, "observer": "inotify"})
         for j in range(jobs):
@@ -94,6 +184,12 @@ def run_batch(spec):
             nontriv = h.counts.get("paths_with_special_bytes", 0) >= 1 and not (cfg["spelling"] == "abs" and not cfg["bytes"])
             fshist.account(b, h, "C19", cfg, nontriv)
             b.add("configurations", f"{spec['observer']}:{cfg['spelling']}:{'bytes' if cfg['bytes'] else 'str'}:{'full' if cfg['full'] else 'normal'}")
+    elif spec["kind"] == "dual":
+        r = rng_for(spec["seed"], "C19d", spec["j"])
+        for n in range(spec["n"]):
+            if b.expired():
+                break
+            run_dual(b, r, "inotify" if n % 3 else "polling")
     elif spec["kind"] == "history1":
         h = fshist.History(spec["cfg"]).run(justify=path_oracle)
         fshist.account(b, h, "C19", spec["cfg"], True)
